@@ -49,6 +49,10 @@ func TestC13(t *testing.T) {
 		// returning: the client first visits a well-behaved TLS 1.2 / 1.3 server with a shared
 		// session cache, so that the adversarial connection offers a session
 		returning bool
+		// narrowed: after this connection's hello was built, another connection that shares
+		// the caller's *Config applies a TLS 1.2-only parrot to it (uTLS writes the spec's
+		// version range into the Config): what this client offered is what is on its wire
+		narrowed bool
 	}
 	var jobs []job
 	for _, tg := range targets {
@@ -66,9 +70,12 @@ func TestC13(t *testing.T) {
 					if max == tls.VersionTLS13 && canary != 0 {
 						continue
 					}
-					jobs = append(jobs, job{tg, max, legacy, canary, o, false})
+					jobs = append(jobs, job{tg, max, legacy, canary, o, false, false})
 					if canary == 0 || legacy {
-						jobs = append(jobs, job{tg, max, legacy, canary, o, true})
+						jobs = append(jobs, job{tg, max, legacy, canary, o, true, false})
+					}
+					if canary == 1 && !legacy && max == tls.VersionTLS12 && tg.ID.Client != tls.HelloGolang.Client {
+						jobs = append(jobs, job{tg, max, legacy, canary, o, false, true})
 					}
 				}
 			}
@@ -104,8 +111,27 @@ func TestC13(t *testing.T) {
 				r.Count("warmup_failed", 1)
 			}
 		}
-		h := RunCase(j.t, GridCase{Server: scfg, Plan: plan}, "example.test", extra, peer.Opts{NoEcho: true})
+		tgt := j.t
+		if j.narrowed {
+			var shared *tls.Config
+			prev := extra
+			extra = func(c *tls.Config) {
+				shared = c
+				if prev != nil {
+					prev(c)
+				}
+			}
+			tgt.Edit = func(u *tls.UConn) error {
+				other := tls.UClient(nil, shared, tls.HelloChrome_58)
+				return other.BuildHandshakeState()
+			}
+			r.Count("connections_with_config_narrowed_by_another_connection", 1)
+		}
+		h := RunCase(tgt, GridCase{Server: scfg, Plan: plan}, "example.test", extra, peer.Opts{NoEcho: true})
 		mode := "normal"
+		if j.narrowed {
+			mode = "config-narrowed"
+		}
 		if j.legacy {
 			mode = "legacy"
 		}
